@@ -181,7 +181,8 @@ class Check:
             if any(fnmatch.fnmatch(t, f) for t in touched for f in files):
                 sil.append(("silent", os.path.basename(d)[:-5], d, 0))
         jobs += sil[:max_silent]
-        base = os.path.join(tempfile.gettempdir(), "rl2tp-verif-selftest")
+        # (one scratch area per check process: several checks may run their thorough tier at the same time)
+        base = os.path.join(tempfile.gettempdir(), "rl2tp-verif-selftest", "%s-%d" % (self.pid, os.getpid()))
         os.makedirs(base, exist_ok=True)
         outdir = tempfile.mkdtemp(prefix="out-", dir=base)
         results = {"seeded": {"run": 0, "as_expected": 0, "skipped": 0, "unexpected": []},
@@ -217,6 +218,7 @@ class Check:
         with ThreadPoolExecutor(max_workers=slots) as ex:
             list(ex.map(lambda t: work(*t), [(i, parts[i]) for i in range(slots) if parts[i]]))
         shutil.rmtree(outdir, ignore_errors=True)
+        shutil.rmtree(base, ignore_errors=True)
         self.extra["selftest"] = results
         for kind in ("seeded", "silent"):
             for u in results[kind]["unexpected"]:
